@@ -123,7 +123,16 @@ def make_case(ctx, g):
             en = b.time() if g.chance(0.5) else None
             if isinstance(st, str) or isinstance(en, str):
                 flags.add("set_time-str")
+            _ = (list(rec.attributes), hash(rec))        # the record has been read before it is changed
             w.set_time(h, st, en)
+            # every view of the record tells the same times afterwards: the flat list, the formal slots, the accessors
+            T0, T1 = PROVU + "startTime", PROVU + "endTime"
+            flat = sorted((a.uri, str(v)) for (a, v) in rec.attributes if a.uri in (T0, T1))
+            slots = sorted((a.uri, str(v)) for (a, v) in rec.formal_attributes if a.uri in (T0, T1) and v is not None)
+            acc = sorted((u, str(v)) for (u, v) in ((T0, rec.get_startTime()), (T1, rec.get_endTime())) if v is not None)
+            if not (flat == slots == acc):
+                fails.append(Failure("oracle", None, "after set_time the views of the activity disagree: attributes %s, formal_attributes %s, "
+                                     "get_startTime/get_endTime %s" % (flat, slots, acc), {"ops": list(w.ops)}))
         elif k < 0.75:
             v = g.value(b.scope_namespaces(c), ["qn", "qn", "lit", "str", "int", "uri"])
             if isinstance(v, Literal):
